@@ -287,8 +287,11 @@ func VerifSyncLoop() {
 		vrt.Assert("C10.transient-fault-does-not-change-the-ledger@D6",
 			vrtSyncedHeight(db) == tip && vrt.SameStore(vrt.Snapshot(db), ref[2], "pn_sync_version"))
 	} else {
-		vrt.Assert("C10.transient-fault-does-not-change-the-ledger",
-			vrtSyncedHeight(db) == tip && vrt.SameStore(vrt.Snapshot(db), ref[2], "pn_sync_version"))
+		same := vrtSyncedHeight(db) == tip && vrt.SameStore(vrt.Snapshot(db), ref[2], "pn_sync_version")
+		vrt.Assert("C10.transient-fault-does-not-change-the-ledger", same)
+		// the same fact read as C15: scheduled issuance (developer payout, 2.0.4 mint and its burn)
+		// is applied exactly once even when its block had to be retried
+		vrt.Assert("C15.scheduled-issuance-exactly-once-across-a-retried-block", same)
 	}
 	vrt.Assert("C02.in-memory-height-equals-committed-height", d.Sync.Synced == vrtSyncedHeight(db))
 	vrt.Assert("C02.one-version-row-per-height", vrtVersionRows(db, sc.start, tip))
